@@ -653,6 +653,52 @@ Proof.
   - match goal with Hq : st_asg _ = st_asg st |- _ => now rewrite Hq end.
 Qed.
 
+Lemma assign_shard_other strat H order st s st' r s' :
+  assign_shard strat H order st s = (st', r) -> s' <> s ->
+  aget N.eqb s' (st_asg st') = aget N.eqb s' (st_asg st).
+Proof.
+  intros Ha Hne. apply assign_shard_result in Ha. inversion Ha; subst; auto.
+  - rewrite asg_update_node_shards. cbn. rewrite aget_aset_other by auto. congruence.
+  - congruence.
+Qed.
+
+(* route_write under interference: the assignment map stays a map, and only the routed shard's
+   entry can change *)
+Lemma route_gen_asg_wf interf strat H order s : forall fuel attempt st st' r,
+  route_write_gen interf fuel attempt strat H order st s = (st', r) -> asg_wf st -> asg_wf st'.
+Proof.
+  induction fuel as [|f IH]; intros attempt st st' r; cbn [route_write_gen].
+  - intros Heq Hwf. inversion Heq; subst. exact Hwf.
+  - destruct (Consts.ROUTER_MAX_ROUTE_ATTEMPTS <=? attempt).
+    + intros Heq Hwf. inversion Heq; subst. exact Hwf.
+    + destruct (assign_shard strat H order st s) as [st1 r1] eqn:Ea. intros Heq Hwf.
+      pose proof (assign_shard_asg_wf _ _ _ _ _ _ _ Ea Hwf) as Hwf1.
+      destruct r1 as [n|e| |]; try (inversion Heq; subst; exact Hwf1).
+      cbn [st_reg with_reg] in Heq.
+      destruct (aget N.eqb n (interf attempt (st_reg st1))) as [i|]; [|inversion Heq; subst; exact Hwf1].
+      destruct (can_accept_writes i); [inversion Heq; subst; exact Hwf1|].
+      eapply IH; [exact Heq|]. unfold asg_wf, unassign. cbn. apply nodup_adel. exact Hwf1.
+Qed.
+
+Lemma route_gen_other_shards interf strat H order s s' : s' <> s -> forall fuel attempt st st' r,
+  route_write_gen interf fuel attempt strat H order st s = (st', r) ->
+  aget N.eqb s' (st_asg st') = aget N.eqb s' (st_asg st).
+Proof.
+  intros Hne. induction fuel as [|f IH]; intros attempt st st' r; cbn [route_write_gen].
+  - intros Heq. inversion Heq; subst. reflexivity.
+  - destruct (Consts.ROUTER_MAX_ROUTE_ATTEMPTS <=? attempt).
+    + intros Heq. inversion Heq; subst. reflexivity.
+    + destruct (assign_shard strat H order st s) as [st1 r1] eqn:Ea. intros Heq.
+      pose proof (assign_shard_other _ _ _ _ _ _ _ _ Ea Hne) as Ho.
+      destruct r1 as [n|e| |]; try (inversion Heq; subst; exact Ho).
+      cbn [st_reg with_reg] in Heq.
+      destruct (aget N.eqb n (interf attempt (st_reg st1))) as [i|]; [|inversion Heq; subst; exact Ho].
+      destruct (can_accept_writes i); [inversion Heq; subst; exact Ho|].
+      rewrite (IH _ _ _ _ Heq). unfold unassign. cbn. rewrite aget_adel_other by auto. exact Ho.
+Qed.
+
+Arguments route_write_gen : simpl never.
+
 Lemma step_asg_wf strat H st o st' r : step strat H st o = (st', r) -> asg_wf st -> asg_wf st'.
 Proof.
   destruct o; cbn; try (intros Heq Hwf; inversion Heq; subst; exact Hwf).
@@ -661,6 +707,8 @@ Proof.
     eapply rebalance_asg_wf; eauto.
   - destruct (route_write strat H order st s) as [st1 r1] eqn:Er. intros Heq. inversion Heq; subst.
     rewrite route_write_is_assign in Er. eapply assign_shard_asg_wf; eauto.
+  - destruct (route_write_gen (interf_of specs) ROUTE_FUEL 0 strat H order st s) as [st1 r1] eqn:Er.
+    intros Heq. inversion Heq; subst. eapply route_gen_asg_wf; eauto.
 Qed.
 
 Lemma run_from_asg_wf strat H h : forall st, asg_wf st -> asg_wf (run_from strat H st h).
@@ -683,13 +731,14 @@ Theorem moves_only_when_ineligible_or_rebalanced strat H st o st' r s n :
   aget N.eqb s (st_asg st) = Some n ->
   aget N.eqb s (st_asg st') <> Some n ->
   (exists order, o = ORebalance order) \/
-  (exists order, o = ORoute s order /\ eligible (st_reg st) n = false).
+  (exists order, o = ORoute s order /\ eligible (st_reg st) n = false) \/
+  (exists order specs, o = ORouteI s order specs).
 Proof.
   destruct o; cbn; try (intros Heq; inversion Heq; subst; cbn; congruence).
   - destruct (heartbeat n0 (st_reg st)). intros Heq. inversion Heq; subst. cbn. congruence.
   - intros _ _ _. left. eauto.
   - destruct (route_write strat H order st s0) as [st1 r1] eqn:Er. intros Heq Hold Hnew.
-    inversion Heq; subst. right. exists order.
+    inversion Heq; subst. right. left. exists order.
     rewrite route_write_is_assign in Er. apply assign_shard_result in Er.
     inversion Er; subst; try congruence.
     rewrite asg_update_node_shards in Hnew. cbn in Hnew.
@@ -698,16 +747,23 @@ Proof.
       match goal with Hc : current_ok _ _ = None |- _ => unfold current_ok in Hc; rewrite Hold in Hc end.
       destruct (eligible (st_reg st) n); [discriminate|reflexivity].
     + rewrite aget_aset_other in Hnew by auto. congruence.
+  - destruct (route_write_gen (interf_of specs) ROUTE_FUEL 0 strat H order st s0) as [st1 r1] eqn:Er.
+    intros Heq Hold Hnew. inversion Heq; subst. right. right.
+    destruct (N.eq_dec s s0) as [->|Hne]; [eauto|].
+    exfalso. apply Hnew. rewrite (route_gen_other_shards _ _ _ _ _ _ Hne _ _ _ _ _ Er). exact Hold.
 Qed.
 
-(* the same, along histories *)
+(* the same, along histories: a shard leaves its node only by a rebalance, by routing that very
+   shard while its node cannot accept writes, or by a route of that very shard during which
+   other tasks changed the registry (the node then failed the lookup of some attempt) *)
 Theorem moves_only_when_ineligible_or_rebalanced_hist strat H h o s n :
   let st := run strat H h in
   let st' := run strat H (h ++ [o]) in
   aget N.eqb s (st_asg st) = Some n ->
   aget N.eqb s (st_asg st') <> Some n ->
   (exists order, o = ORebalance order) \/
-  (exists order, o = ORoute s order /\ eligible (st_reg st) n = false).
+  (exists order, o = ORoute s order /\ eligible (st_reg st) n = false) \/
+  (exists order specs, o = ORouteI s order specs).
 Proof.
   cbn. unfold run, run_from. rewrite fold_left_app. cbn.
   destruct (step strat H (fold_left (fun acc o0 => fst (step strat H acc o0)) h init_state) o) as [st' r] eqn:Es.
@@ -719,19 +775,23 @@ Theorem assigned_only_by_route strat H st o st' r s :
   step strat H st o = (st', r) ->
   aget N.eqb s (st_asg st) = None ->
   aget N.eqb s (st_asg st') <> None ->
-  exists order, o = ORoute s order.
+  (exists order, o = ORoute s order) \/ (exists order specs, o = ORouteI s order specs).
 Proof.
   destruct o; cbn; try (intros Heq; inversion Heq; subst; cbn; congruence).
   - destruct (heartbeat n (st_reg st)). intros Heq. inversion Heq; subst. cbn. congruence.
   - destruct (rebalance H order st) as [st1 m] eqn:Er. intros Heq Hold Hnew. inversion Heq; subst.
     exfalso. apply Hnew. eapply rebalance_keeps_unassigned; eauto.
   - destruct (route_write strat H order st s0) as [st1 r1] eqn:Er. intros Heq Hold Hnew.
-    inversion Heq; subst. exists order.
+    inversion Heq; subst. left. exists order.
     rewrite route_write_is_assign in Er. apply assign_shard_result in Er.
     inversion Er; subst; try congruence.
     rewrite asg_update_node_shards in Hnew. cbn in Hnew.
     destruct (N.eq_dec s s0) as [->|Hne]; auto.
     rewrite aget_aset_other in Hnew by auto. congruence.
+  - destruct (route_write_gen (interf_of specs) ROUTE_FUEL 0 strat H order st s0) as [st1 r1] eqn:Er.
+    intros Heq Hold Hnew. inversion Heq; subst. right.
+    destruct (N.eq_dec s s0) as [->|Hne]; [eauto|].
+    exfalso. apply Hnew. rewrite (route_gen_other_shards _ _ _ _ _ _ Hne _ _ _ _ _ Er). exact Hold.
 Qed.
 
 (* after a rebalance that found a healthy ingester, every assigned shard sits on a node that
@@ -872,3 +932,15 @@ Example ex_rebalance_premises :
   healthy_ingesters [0; 1] (st_reg (run ConsistentHash ex_hashes ex_history)) <> [] /\
   (forall k, vnode_hashes ex_hashes k <> []).
 Proof. split; [vm_compute; discriminate|intros k; cbn; discriminate]. Qed.
+
+(* a shard moves during a route because another task drained its node between the assignment
+   and the lookup (third case of moves_only_when_ineligible_or_rebalanced): the retry is taken
+   once and the call returns the other node *)
+Example ex_move_under_interference :
+  let h := [ORegister 0 Ingester Healthy 0; ORegister 1 Ingester Healthy 0; ORoute 1 [0; 1]] in
+  let st := run RoundRobin ex_hashes h in
+  aget N.eqb 1 (st_asg st) = Some 0 /\ eligible (st_reg st) 0 = true /\
+  step RoundRobin ex_hashes st (ORouteI 1 [0; 1] [[RStatus 0 Draining]])
+  = (mkState [(0, mkNode Ingester Draining 0 [1]); (1, mkNode Ingester Healthy 0 [1])] [(1, 1)] [],
+     RRoute (Done 1)).
+Proof. vm_compute. repeat split; reflexivity. Qed.
